@@ -46,6 +46,8 @@ func (v *FnVC) runAnchored(anchor string, pos token.Pos, extra map[string]Term) 
 			}
 			v.behavClause = cl.Behav != ""
 			v.oblige("assert@"+strings.ReplaceAll(anchor, " ", ":"), v.clauseLabel(cl, i, j), t, cl.Props, true, c.String(), pos)
+			// an assertion that has been obliged here may be used by what follows (standard assert semantics)
+			v.assume(t)
 		}
 	}
 }
